@@ -39,6 +39,11 @@ type wReq struct {
 	alts  [][]util.Uint160
 	known bool
 	none  bool // documented as needing no witness (callbacks, read-only): never judged
+	// near: accounts related to the requirement that are documented NOT to
+	// suffice on their own (a single member of the required multi-signature,
+	// the multi-signature where single keys vote, ...); each becomes a degraded
+	// signer set unless it happens to satisfy the requirement
+	near map[string]util.Uint160
 }
 
 func wAlt(hs ...util.Uint160) []util.Uint160 { return hs }
@@ -120,33 +125,59 @@ func requirement(w *World, d *Deployed, c *CallInfo) wReq {
 	// main-chain governance: the keys stored in NeoFS (single, or their
 	// multi-signature) or the chain's Alphabet account — see §10.3 observation
 	governance := func() wReq {
-		r := wReq{known: true, alts: [][]util.Uint160{wAlt(A)}}
 		var nf *Deployed
 		for _, x := range w.C {
 			if x.Repo == "neofs" {
 				nf = x
 			}
 		}
-		if nf != nil {
-			// the stored keys' 2n/3+1 account is computed here from the key list,
-			// not read from the contract's own alphabetAddress
-			if it, err := w.readNoHook(nf.Hash, "alphabetList"); err == nil {
-				var ks keys.PublicKeys
-				for _, n := range ItemArr(it) {
-					f := ItemArr(n)
-					if len(f) > 0 {
-						if h, ok := keyHash(ItemBytes(f[0])); ok {
-							r.alts = append(r.alts, wAlt(h))
-						}
-						if k, err := keys.NewPublicKeyFromBytes(ItemBytes(f[0]), nil); err == nil {
-							ks = append(ks, k)
-						}
+		if nf == nil {
+			return wReq{known: true, alts: [][]util.Uint160{wAlt(A)}}
+		}
+		// Notary on: a 2n/3+1 account — of the chain's committee (what cheque,
+		// alphabetUpdate and setConfig check) or of the keys stored in the
+		// contract (what candidate removal checks; the account is computed here
+		// from the key list, not read from the contract's own alphabetAddress);
+		// which of the two a method means is left open (§10.3, "don't care"),
+		// both count. Notary off: one stored key per invocation, and the
+		// multi-signature accounts are nobody. Single stored keys are nobody
+		// with Notary on. Appendix A.
+		notaryOff := false
+		if v := w.BC.GetStorageItem(nf.ID, []byte("notary")); len(v) > 0 && v[0] != 0 {
+			notaryOff = true
+		}
+		r := wReq{known: true, near: map[string]util.Uint160{}}
+		it, err := w.readNoHook(nf.Hash, "alphabetList")
+		if err != nil {
+			return wReq{}
+		}
+		var ks keys.PublicKeys
+		for i, n := range ItemArr(it) {
+			f := ItemArr(n)
+			if len(f) > 0 {
+				if h, ok := keyHash(ItemBytes(f[0])); ok {
+					if notaryOff {
+						r.alts = append(r.alts, wAlt(h))
+					} else if i < 3 {
+						r.near[fmt.Sprintf("stored-member%d", i)] = h
 					}
 				}
-				if h, ok := multisigHash(len(ks)*2/3+1, ks); ok {
-					r.alts = append(r.alts, wAlt(h))
+				if k, err := keys.NewPublicKeyFromBytes(ItemBytes(f[0]), nil); err == nil {
+					ks = append(ks, k)
 				}
 			}
+		}
+		if h, ok := multisigHash(len(ks)*2/3+1, ks); ok {
+			if !notaryOff {
+				r.alts = append(r.alts, wAlt(h))
+			} else {
+				r.near["stored-alphabet-account"] = h
+			}
+		}
+		if !notaryOff {
+			r.alts = append(r.alts, wAlt(A))
+		} else {
+			r.near["chain-alphabet-account"] = A
 		}
 		return r
 	}
@@ -184,7 +215,13 @@ func requirement(w *World, d *Deployed, c *CallInfo) wReq {
 					idx = int(v[0])
 				}
 				if idx < len(w.Pubs) {
-					return wReq{known: true, alts: [][]util.Uint160{wAlt(w.Pubs[idx].GetScriptHash())}}
+					req := wReq{known: true, alts: [][]util.Uint160{wAlt(w.Pubs[idx].GetScriptHash())}, near: map[string]util.Uint160{}}
+					// the Inner Ring node at that position is paid by emit; it does
+					// not authorise it
+					if ir, _, err := w.BC.GetDesignatedByRole(noderoles.NeoFSAlphabet); err == nil && idx < len(ir) {
+						req.near["inner-ring-node-at-index"] = ir[idx].GetScriptHash()
+					}
+					return req
 				}
 			}
 		}
@@ -487,6 +524,13 @@ func degraded(w *World, req wReq, stranger util.Uint160) map[string][]Signer {
 			out[fmt.Sprintf("threshold-%d-of-%d", m, len(pubs))] = []Signer{bare(fmt.Sprintf("%d-of-%d", m, len(pubs)), h, transaction.Global)}
 		}
 	}
+	if w.Validator.Hash != w.Alphabet.Hash && w.Validator.Hash != w.Committee.Hash {
+		// fewer validators than committee members: the block signers' account
+		out["validators-account"] = []Signer{bare("validators", w.Validator.Hash, transaction.Global)}
+	}
+	for name, h := range req.near {
+		out["near-"+name] = []Signer{bare(name, h, transaction.Global)}
+	}
 	for ai, alt := range req.alts {
 		var full []Signer
 		for i, a := range alt {
@@ -589,7 +633,14 @@ func witnessBody(r *Run) {
 			verdict = func() { r.Violation("C03/effect-without-required-witness", "", "%s", msg) }
 			return
 		}
-		for name, s := range degraded(w, req, stranger) {
+		dsets := degraded(w, req, stranger)
+		var dnames []string
+		for name := range dsets {
+			dnames = append(dnames, name)
+		}
+		sort.Strings(dnames)
+		for _, name := range dnames {
+			s := dsets[name]
 			p := w.WhatIf(script, s, 1)
 			r.Cell("C03.matrix", cell+"/"+classOf(name))
 			r.Count("degraded_sets_evaluated")
@@ -726,8 +777,12 @@ func classOf(name string) string {
 		return "other_key"
 	case name == "committee-account" || name == "alphabet-account":
 		return "swap_threshold"
-	case name == "single":
+	case name == "single" || strings.HasPrefix(name, "near-stored-member"):
 		return "single"
+	case name == "validators-account":
+		return "validators_account"
+	case strings.HasPrefix(name, "near-"):
+		return "related_account"
 	case strings.HasPrefix(name, "threshold-"):
 		return "other_threshold"
 	}
